@@ -559,10 +559,10 @@ impl LanguageServer for IncanLanguageServer {
     async fn did_change(&self, params: DidChangeTextDocumentParams) {
         let uri = params.text_document.uri;
         let version = params.text_document.version;
-        let ticket = self.take_ticket(&uri);
 
         // We use FULL sync, so there's only one change with the full content
         if let Some(change) = params.content_changes.into_iter().next() {
+            let ticket = self.take_ticket(&uri);
             self.analyze_document(&uri, &change.text, version, ticket).await;
         }
     }
